@@ -69,6 +69,21 @@ def lint_j_fixture_matches() -> bool:
   return lint.handler_around_loop(c, [fixture_module("lint_j.py")]) == 1 and len(c.bads) == 1
 
 
+def lint_k_fixture_matches() -> bool:
+  import ast
+  from .core import ClassInfo, FuncInfo
+  from .rules import lint
+  m = fixture_module("lint_k.py")
+  cnode = [n for n in m.tree.body if isinstance(n, ast.ClassDef)][0]
+  ci = ClassInfo(cnode.name, "fixture.lint_k:" + cnode.name, m, cnode, None)
+  for fn_ in cnode.body:
+    if isinstance(fn_, ast.FunctionDef):
+      ci.methods[fn_.name] = FuncInfo(fn_.name, f"fixture.lint_k:{cnode.name}.{fn_.name}", m, fn_, ci, None)
+  c = _NullCtx(_FakeIndex())
+  c.where = lambda mod, n: "fixture"
+  return lint.numeric_field_truthiness(c, [ci]) == 1 and len(c.bads) == 1
+
+
 def lint_b_fixture_matches() -> bool:
   from .rules import lint
 
